@@ -29,7 +29,7 @@ def fill(rng, c, h, focus):
 
 
 def histories(rng, tier):
-    n = 150 if tier == 'quick' else 3000
+    n = 350 if tier == 'quick' else 3000
     out = []
     for _ in range(n):
         covord = rng.choice([0, 0, 1])
